@@ -290,3 +290,1199 @@ Theorem C06_sync_eq_fsm_tree : forall (HO : hops) (size bs : N), size <= 2 ^ 63 
   valid_outboard_ranges_fsm HO ob q = valid_outboard_ranges HO ob q.
 Proof. exact c06_sync_eq_fsm_tree. Qed.
 Print Assumptions C06_sync_eq_fsm_tree.
+
+(* ======== Gap closure (proofs in Proofs/GapValFsmView.v, GapValFsm.v, GapValShort.v, GapValShortTop.v,
+   GapValShortFsm.v, GapValWit.v) ========
+   A. The fsm validators on ARBITRARY stores, stated on load_fsm itself.  No theorem below has a premise relating
+      load_fsm to load_sync (C06_sync_eq_fsm, C06_sync_eq_fsm_tree and C06_created_store_complete need one; it
+      fails for an io-backed outboard whose byte vector is shorter than (blocks - 1) * 64: load_sync returns
+      Err UnexpectedEof there, load_fsm a zero pair).  The predicates are those of sections 1-4 with
+        stored_pair_fsm ob nd        the pair load_fsm returns for node nd (None: no slot)
+      in the place of stored_pair: chain_prop_fsm / owed_walk_fsm (walks), chain_ok_fsm, leaf_ok_fsm,
+      grp_verdict_fsm, val_spec_fsm / val_top_fsm, path_true_fsm; loads_ok_fsm: no load_fsm of a node of the tree
+      fails.  loads_ok_fsm holds for every io-backed store whatever the length of its byte vector
+      (C06_fsm_loads_ok_io), for every pre-sized store (C06_fsm_loads_ok_sized) and for the empty outboard.
+   B. The data validator on a data file of ANY length (sync and fsm), in particular shorter than the blob: exact
+      output (recursive specification val_spec_e; group by group up to the first group whose bytes are not in the
+      file), membership, soundness, completeness, single group; a longer file is read inside [0, size) only. *)
+From BaoV Require Import Proofs.HistOb Proofs.GapValFsmView Proofs.GapValFsm Proofs.GapValShort Proofs.GapValShortTop
+  Proofs.GapValShortFsm Proofs.GapValWit.
+
+(* ---- A.0 the definitions, unfolded ---- *)
+Theorem C06_fsm_stored_pair_def :
+  forall (HO : hops) (ob : outboard HO) (nd : N),
+  stored_pair_fsm HO ob nd = match load_fsm HO ob nd with Ok x => x | _ => None end.
+Proof. reflexivity. Qed.
+Print Assumptions C06_fsm_stored_pair_def.
+
+Theorem C06_fsm_loads_ok_def :
+  forall (HO : hops) (ob : outboard HO) (size bs : N),
+  loads_ok_fsm HO ob size bs <-> (forall nd, In nd (sp_pre_nodes size bs) -> exists x, load_fsm HO ob nd = Ok x).
+Proof. intros; reflexivity. Qed.
+Print Assumptions C06_fsm_loads_ok_def.
+
+Theorem C06_fsm_chain_prop_def :
+  forall (HO : hops) (ob : outboard HO) (owed : hash HO) (ir : bool),
+  (chain_prop_fsm HO ob [] owed ir <-> True) /\
+  (forall nd rt rest,
+     chain_prop_fsm HO ob ((nd, rt) :: rest) owed ir <->
+     exists l r, stored_pair_fsm HO ob nd = Some (l, r) /\ heq HO (parent_cv HO l r ir) owed /\
+                 chain_prop_fsm HO ob rest (if rt then r else l) false).
+Proof. intros; split; intros; reflexivity. Qed.
+Print Assumptions C06_fsm_chain_prop_def.
+
+Theorem C06_fsm_owed_walk_def :
+  forall (HO : hops) (ob : outboard HO) (owed : option (hash HO)),
+  owed_walk_fsm HO ob [] owed = owed /\
+  (forall nd rt rest,
+     owed_walk_fsm HO ob ((nd, rt) :: rest) owed =
+     owed_walk_fsm HO ob rest (option_map (pick HO rt) (stored_pair_fsm HO ob nd))).
+Proof. intros; split; intros; reflexivity. Qed.
+Print Assumptions C06_fsm_owed_walk_def.
+
+Theorem C06_fsm_chain_ok_def :
+  forall (HO : hops) (ob : outboard HO) (size bs ga : N),
+  chain_ok_fsm HO ob size bs ga <-> chain_prop_fsm HO ob (top_path size bs ga) (ob_root ob) true.
+Proof. intros; reflexivity. Qed.
+Print Assumptions C06_fsm_chain_ok_def.
+
+Theorem C06_fsm_leaf_ok_def :
+  forall (HO : hops) (d : bytes HO) (ob : outboard HO) (size bs ga : N),
+  leaf_ok_fsm HO d ob size bs ga <->
+  exists h, owed_walk_fsm HO ob (top_path size bs ga) (Some (ob_root ob)) = Some h /\
+    heq HO (hash_subtree HO (grp_start bs ga) (chunk_bytes HO d (grp_start bs ga) (grp_end size bs ga))
+              (sp_blocks size bs =? 1)) h.
+Proof. intros; reflexivity. Qed.
+Print Assumptions C06_fsm_leaf_ok_def.
+
+Theorem C06_fsm_path_true_def :
+  forall (HO : hops) (data : bytes HO) (bs : N) (ob : outboard HO) (ga : N),
+  path_true_fsm HO data bs ob ga <->
+  (forall nd rt, In (nd, rt) (top_path (blen HO data) bs ga) -> stored_pair_fsm HO ob nd = Some (true_pair HO data nd)).
+Proof. intros; reflexivity. Qed.
+Print Assumptions C06_fsm_path_true_def.
+
+Theorem C06_fsm_val_top_def :
+  forall (HO : hops) (wd : bool) (ob : outboard HO) (d : bytes HO) (size bs : N) (q : ranges),
+  val_top_fsm HO wd ob d size bs q =
+  val_spec_fsm HO VFUEL wd ob d size bs (sel q size) 0 (sp_blocks size bs) (ob_root ob) true.
+Proof. exact val_top_fsm_eq. Qed.
+Print Assumptions C06_fsm_val_top_def.
+
+(* one step of the recursive specification (C06_val_spec_step with stored_pair_fsm) *)
+Theorem C06_fsm_val_spec_step :
+  forall (HO : hops) (f : nat) (wd : bool) (ob : outboard HO) (d : bytes HO) (size bs : N) (Sel : N -> bool) (ga n : N) (owed : hash HO) (is_root : bool),
+    val_spec_fsm HO (S f) wd ob d size bs Sel ga n owed is_root =
+    (if negb (touchedn Sel size bs ga n)
+     then []
+     else
+      if n <=? 1
+      then leaf_rep HO wd d size bs ga owed is_root
+      else
+       match stored_pair_fsm HO ob (unshift bs (sid ga n)) with
+       | Some (l, r) =>
+           if negb (bytes_eqb HO (parent_cv HO l r is_root) owed)
+           then []
+           else
+            if n <=? 2
+            then
+             (if touchedn Sel size bs ga 1 then leaf_rep HO wd d size bs ga l false else []) ++
+             (if touchedn Sel size bs (ga + 1) 1 then leaf_rep HO wd d size bs (ga + 1) r false else [])
+            else
+             let half := capof n / 2 in
+             val_spec_fsm HO f wd ob d size bs Sel ga half l false ++ val_spec_fsm HO f wd ob d size bs Sel (ga + half) (n - half) r false
+       | None => []
+       end).
+Proof. exact val_spec_fsm_eq. Qed.
+Print Assumptions C06_fsm_val_spec_step.
+
+(* what load_fsm returns on an io-backed store (is_io k: k = PreIO or PostIO) at a node of the tree, whatever the
+   length of the byte vector: no slot, or the slot if it is completely present, else the zero pair *)
+Theorem C06_fsm_io_load :
+  forall (HO : hops) (size bs : N),
+    size <= 2 ^ 63 ->
+    bs <= 10 ->
+    forall (ob : outboard HO) (nd : N),
+    is_io (ob_k ob) = true ->
+    ob_tree ob = mkTree (size) (bs) ->
+    In nd (sp_pre_nodes size bs) ->
+    ob_offset HO ob nd = None /\ load_fsm HO ob nd = Ok None \/
+    (exists o : N,
+       ob_offset HO ob nd = Some o /\
+       o < sp_blocks size bs - 1 /\
+       load_fsm HO ob nd = Ok (Some (if o * 64 + 64 <=? blen HO (ob_data ob) then parse_pair HO (slice HO (o * 64) 64 (ob_data ob)) else zero_pair HO))).
+Proof. exact io_load_fsm. Qed.
+Print Assumptions C06_fsm_io_load.
+
+Theorem C06_is_io_def :
+  forall k : ob_kind, is_io k = true <-> k = PreIO \/ k = PostIO.
+Proof. intro k; destruct k; cbn; split; intros; try discriminate; auto; destruct H; discriminate. Qed.
+Print Assumptions C06_is_io_def.
+
+(* ---- A.1 the loads premise holds unconditionally for io-backed stores, and for pre-sized stores ---- *)
+Theorem C06_fsm_loads_ok_io :
+  forall (HO : hops) (size bs : N),
+    size <= 2 ^ 63 ->
+    bs <= 10 -> forall ob : outboard HO, ob_k ob = PreIO \/ ob_k ob = PostIO -> ob_tree ob = mkTree (size) (bs) -> loads_ok_fsm HO ob size bs.
+Proof. exact loads_ok_fsm_io. Qed.
+Print Assumptions C06_fsm_loads_ok_io.
+
+Theorem C06_fsm_loads_ok_sized :
+  forall (HO : hops) (size bs : N), size <= 2 ^ 63 -> bs <= 10 -> forall ob : outboard HO, ob_sized HO ob size bs -> loads_ok_fsm HO ob size bs.
+Proof. exact loads_ok_fsm_sized. Qed.
+Print Assumptions C06_fsm_loads_ok_sized.
+
+Theorem C06_fsm_loads_ok_empty :
+  forall (HO : hops) (size bs : N) (ob : outboard HO), ob_k ob = EmptyOb -> loads_ok_fsm HO ob size bs.
+Proof. exact loads_ok_fsm_empty. Qed.
+Print Assumptions C06_fsm_loads_ok_empty.
+
+(* ---- A.2 exact output ---- *)
+Theorem C06_fsm_data_spec :
+  forall (HO : hops) (size bs : N) (ob : outboard HO),
+    size <= 2 ^ 63 ->
+    bs <= 10 ->
+    ob_tree ob = mkTree (size) (bs) ->
+    loads_ok_fsm HO ob size bs ->
+    forall q : ranges,
+    wf_ranges q = true ->
+    forall d : bytes HO, blen HO d = size -> 2 <= sp_blocks size bs -> valid_ranges_fsm HO ob d q = (val_top_fsm HO true ob d size bs q, Ok tt).
+Proof. exact fsm_data_spec. Qed.
+Print Assumptions C06_fsm_data_spec.
+
+(* the reported list, in increasing order of the groups *)
+Theorem C06_fsm_data_exact :
+  forall (HO : hops) (size bs : N) (ob : outboard HO),
+    size <= 2 ^ 63 ->
+    bs <= 10 ->
+    ob_tree ob = mkTree (size) (bs) ->
+    loads_ok_fsm HO ob size bs ->
+    forall q : ranges,
+    wf_ranges q = true ->
+    forall d : bytes HO,
+    blen HO d = size ->
+    2 <= sp_blocks size bs ->
+    valid_ranges_fsm HO ob d q =
+    (flat_map (fun ga : N => if touchedb q size bs ga && grp_verdict_fsm HO true ob d size bs ga then [(grp_start bs ga, grp_end size bs ga)] else [])
+       (chunk_range_list 0 (sp_blocks size bs)), Ok tt).
+Proof. exact fsm_data_exact_groups. Qed.
+Print Assumptions C06_fsm_data_exact.
+
+Theorem C06_fsm_verdict :
+  forall (HO : hops) (size bs : N) (ob : outboard HO),
+    size <= 2 ^ 63 ->
+    bs <= 10 ->
+    ob_tree ob = mkTree (size) (bs) ->
+    forall (wd : bool) (d : bytes HO) (ga : N),
+    2 <= sp_blocks size bs ->
+    grp_verdict_fsm HO wd ob d size bs ga = true <-> chain_ok_fsm HO ob size bs ga /\ (wd = true -> leaf_ok_fsm HO d ob size bs ga).
+Proof. exact fsm_grp_verdict_iff. Qed.
+Print Assumptions C06_fsm_verdict.
+
+Theorem C06_fsm_spec_member :
+  forall (HO : hops) (size bs : N) (ob : outboard HO),
+    size <= 2 ^ 63 ->
+    bs <= 10 ->
+    ob_tree ob = mkTree (size) (bs) ->
+    forall (q : ranges) (wd : bool) (d : bytes HO) (a e : N),
+    2 <= sp_blocks size bs ->
+    In (a, e) (val_top_fsm HO wd ob d size bs q) <->
+    (exists ga : N,
+       ga < sp_blocks size bs /\
+       a = grp_start bs ga /\
+       e = grp_end size bs ga /\ touched q size bs ga /\ chain_ok_fsm HO ob size bs ga /\ (wd = true -> leaf_ok_fsm HO d ob size bs ga)).
+Proof. exact fsm_val_top_member. Qed.
+Print Assumptions C06_fsm_spec_member.
+
+(* membership in the output of the validator itself *)
+Theorem C06_fsm_data_member :
+  forall (HO : hops) (size bs : N) (ob : outboard HO),
+    size <= 2 ^ 63 ->
+    bs <= 10 ->
+    ob_tree ob = mkTree (size) (bs) ->
+    loads_ok_fsm HO ob size bs ->
+    forall q : ranges,
+    wf_ranges q = true ->
+    forall (d : bytes HO) (a e : N),
+    blen HO d = size ->
+    2 <= sp_blocks size bs ->
+    In (a, e) (fst (valid_ranges_fsm HO ob d q)) <->
+    (exists ga : N,
+       ga < sp_blocks size bs /\
+       a = grp_start bs ga /\ e = grp_end size bs ga /\ touched q size bs ga /\ chain_ok_fsm HO ob size bs ga /\ leaf_ok_fsm HO d ob size bs ga).
+Proof. exact fsm_data_member. Qed.
+Print Assumptions C06_fsm_data_member.
+
+(* a single group: no load at all *)
+Theorem C06_fsm_data_single :
+  forall (HO : hops) (size bs : N) (q : ranges) (ob : outboard HO),
+    ob_tree ob = mkTree (size) (bs) ->
+    forall d : bytes HO,
+    blen HO d = size ->
+    sp_blocks size bs = 1 -> valid_ranges_fsm HO ob d q = (if bytes_eqb HO (hash_subtree HO 0 d true) (ob_root ob) then [(0, chunks size)] else [], Ok tt).
+Proof. exact fsm_data_single. Qed.
+Print Assumptions C06_fsm_data_single.
+
+(* ---- A.3 what is reported is the blob; what is the blob and touched is reported ---- *)
+Theorem C06_fsm_reported_is_true :
+  forall HO : hops,
+    hash_ok HO ->
+    forall (data : bytes HO) (bs : N) (ob : outboard HO),
+    blen HO data <= 2 ^ 63 ->
+    bs <= 10 ->
+    ob_root ob = root_hash HO data ->
+    ob_tree ob = mkTree (blen HO data) (bs) ->
+    forall q : ranges,
+    wf_ranges q = true ->
+    loads_ok_fsm HO ob (blen HO data) bs ->
+    forall (d : bytes HO) (a e : N),
+    blen HO d = blen HO data ->
+    2 <= sp_blocks (blen HO data) bs ->
+    In (a, e) (fst (valid_ranges_fsm HO ob d q)) ->
+    chunk_bytes HO d a e = chunk_bytes HO data a e /\
+    (exists ga : N, ga < sp_blocks (blen HO data) bs /\ a = grp_start bs ga /\ e = grp_end (blen HO data) bs ga /\ path_true_fsm HO data bs ob ga).
+Proof. exact fsm_reported_is_true. Qed.
+Print Assumptions C06_fsm_reported_is_true.
+
+Theorem C06_fsm_chain_ok_true :
+  forall HO : hops,
+    hash_ok HO ->
+    forall (data : bytes HO) (bs : N) (ob : outboard HO),
+    blen HO data <= 2 ^ 63 ->
+    bs <= 10 ->
+    ob_root ob = root_hash HO data ->
+    ob_tree ob = mkTree (blen HO data) (bs) ->
+    forall ga : N, ga < sp_blocks (blen HO data) bs -> chain_ok_fsm HO ob (blen HO data) bs ga -> path_true_fsm HO data bs ob ga.
+Proof. exact fsm_chain_ok_true. Qed.
+Print Assumptions C06_fsm_chain_ok_true.
+
+Theorem C06_fsm_leaf_ok_true :
+  forall HO : hops,
+    hash_ok HO ->
+    forall (data : bytes HO) (bs : N) (ob : outboard HO),
+    blen HO data <= 2 ^ 63 ->
+    bs <= 10 ->
+    ob_root ob = root_hash HO data ->
+    ob_tree ob = mkTree (blen HO data) (bs) ->
+    forall (d : bytes HO) (ga : N),
+    ga < sp_blocks (blen HO data) bs ->
+    blen HO d = blen HO data ->
+    chain_ok_fsm HO ob (blen HO data) bs ga ->
+    leaf_ok_fsm HO d ob (blen HO data) bs ga ->
+    chunk_bytes HO d (grp_start bs ga) (grp_end (blen HO data) bs ga) = chunk_bytes HO data (grp_start bs ga) (grp_end (blen HO data) bs ga).
+Proof. exact fsm_leaf_ok_true. Qed.
+Print Assumptions C06_fsm_leaf_ok_true.
+
+Theorem C06_fsm_single_reported_is_true :
+  forall HO : hops,
+    hash_ok HO ->
+    forall (data : bytes HO) (bs : N) (ob : outboard HO),
+    blen HO data <= 2 ^ 63 ->
+    bs <= 10 ->
+    ob_root ob = root_hash HO data ->
+    ob_tree ob = mkTree (blen HO data) (bs) ->
+    forall (q : ranges) (d : bytes HO), blen HO d = blen HO data -> sp_blocks (blen HO data) bs = 1 -> fst (valid_ranges_fsm HO ob d q) <> [] -> d = data.
+Proof. exact fsm_single_reported_is_true. Qed.
+Print Assumptions C06_fsm_single_reported_is_true.
+
+Theorem C06_fsm_valid_is_reported :
+  forall HO : hops,
+    hash_ok HO ->
+    forall (data : bytes HO) (bs : N) (ob : outboard HO),
+    blen HO data <= 2 ^ 63 ->
+    bs <= 10 ->
+    ob_root ob = root_hash HO data ->
+    ob_tree ob = mkTree (blen HO data) (bs) ->
+    forall q : ranges,
+    wf_ranges q = true ->
+    loads_ok_fsm HO ob (blen HO data) bs ->
+    forall (d : bytes HO) (ga : N),
+    blen HO d = blen HO data ->
+    2 <= sp_blocks (blen HO data) bs ->
+    ga < sp_blocks (blen HO data) bs ->
+    touched q (blen HO data) bs ga ->
+    path_true_fsm HO data bs ob ga ->
+    chunk_bytes HO d (grp_start bs ga) (grp_end (blen HO data) bs ga) = chunk_bytes HO data (grp_start bs ga) (grp_end (blen HO data) bs ga) ->
+    In (grp_start bs ga, grp_end (blen HO data) bs ga) (fst (valid_ranges_fsm HO ob d q)).
+Proof. exact fsm_valid_is_reported. Qed.
+Print Assumptions C06_fsm_valid_is_reported.
+
+Theorem C06_fsm_intact_complete :
+  forall HO : hops,
+    hash_ok HO ->
+    forall (data : bytes HO) (bs : N) (ob : outboard HO),
+    blen HO data <= 2 ^ 63 ->
+    bs <= 10 ->
+    ob_root ob = root_hash HO data ->
+    ob_tree ob = mkTree (blen HO data) (bs) ->
+    forall q : ranges,
+    wf_ranges q = true ->
+    loads_ok_fsm HO ob (blen HO data) bs ->
+    2 <= sp_blocks (blen HO data) bs ->
+    (forall ga : N, ga < sp_blocks (blen HO data) bs -> path_true_fsm HO data bs ob ga) ->
+    valid_ranges_fsm HO ob data q =
+    (flat_map (fun ga : N => if touchedb q (blen HO data) bs ga then [(grp_start bs ga, grp_end (blen HO data) bs ga)] else [])
+       (chunk_range_list 0 (sp_blocks (blen HO data) bs)), Ok tt).
+Proof. exact fsm_intact_complete. Qed.
+Print Assumptions C06_fsm_intact_complete.
+
+Theorem C06_fsm_single_intact :
+  forall HO : hops,
+    hash_ok HO ->
+    forall (data : bytes HO) (bs : N) (ob : outboard HO),
+    blen HO data <= 2 ^ 63 ->
+    ob_root ob = root_hash HO data ->
+    ob_tree ob = mkTree (blen HO data) (bs) ->
+    forall q : ranges, sp_blocks (blen HO data) bs = 1 -> valid_ranges_fsm HO ob data q = ([(0, chunks (blen HO data))], Ok tt).
+Proof. exact fsm_single_valid_is_reported. Qed.
+Print Assumptions C06_fsm_single_intact.
+
+(* ---- A.4 outboard only ---- *)
+Theorem C06_fsm_outboard_spec :
+  forall (HO : hops) (size bs : N) (ob : outboard HO),
+    size <= 2 ^ 63 ->
+    bs <= 10 ->
+    ob_tree ob = mkTree (size) (bs) ->
+    loads_ok_fsm HO ob size bs ->
+    forall q : ranges, wf_ranges q = true -> 2 <= sp_blocks size bs -> valid_outboard_ranges_fsm HO ob q = (val_top_fsm HO false ob [] size bs q, Ok tt).
+Proof. exact fsm_outboard_spec. Qed.
+Print Assumptions C06_fsm_outboard_spec.
+
+Theorem C06_fsm_outboard_exact :
+  forall (HO : hops) (size bs : N) (ob : outboard HO),
+    size <= 2 ^ 63 ->
+    bs <= 10 ->
+    ob_tree ob = mkTree (size) (bs) ->
+    loads_ok_fsm HO ob size bs ->
+    forall q : ranges,
+    wf_ranges q = true ->
+    2 <= sp_blocks size bs ->
+    valid_outboard_ranges_fsm HO ob q =
+    (flat_map (fun ga : N => if touchedb q size bs ga && grp_verdict_fsm HO false ob [] size bs ga then [(grp_start bs ga, grp_end size bs ga)] else [])
+       (chunk_range_list 0 (sp_blocks size bs)), Ok tt).
+Proof. exact fsm_outboard_exact_groups. Qed.
+Print Assumptions C06_fsm_outboard_exact.
+
+Theorem C06_fsm_outboard_member :
+  forall (HO : hops) (size bs : N) (ob : outboard HO),
+    size <= 2 ^ 63 ->
+    bs <= 10 ->
+    ob_tree ob = mkTree (size) (bs) ->
+    loads_ok_fsm HO ob size bs ->
+    forall q : ranges,
+    wf_ranges q = true ->
+    forall a e : N,
+    2 <= sp_blocks size bs ->
+    In (a, e) (fst (valid_outboard_ranges_fsm HO ob q)) <->
+    (exists ga : N, ga < sp_blocks size bs /\ a = grp_start bs ga /\ e = grp_end size bs ga /\ touched q size bs ga /\ chain_ok_fsm HO ob size bs ga).
+Proof. exact fsm_outboard_member. Qed.
+Print Assumptions C06_fsm_outboard_member.
+
+Theorem C06_fsm_outboard_single :
+  forall (HO : hops) (size bs : N) (q : ranges) (ob : outboard HO),
+    ob_tree ob = mkTree (size) (bs) -> sp_blocks size bs = 1 -> valid_outboard_ranges_fsm HO ob q = ([(0, chunks size)], Ok tt).
+Proof. exact fsm_outboard_single. Qed.
+Print Assumptions C06_fsm_outboard_single.
+
+Theorem C06_fsm_outboard_reported_is_true :
+  forall HO : hops,
+    hash_ok HO ->
+    forall (data : bytes HO) (bs : N) (ob : outboard HO),
+    blen HO data <= 2 ^ 63 ->
+    bs <= 10 ->
+    ob_root ob = root_hash HO data ->
+    ob_tree ob = mkTree (blen HO data) (bs) ->
+    forall q : ranges,
+    wf_ranges q = true ->
+    loads_ok_fsm HO ob (blen HO data) bs ->
+    forall a e : N,
+    2 <= sp_blocks (blen HO data) bs ->
+    In (a, e) (fst (valid_outboard_ranges_fsm HO ob q)) ->
+    exists ga : N, ga < sp_blocks (blen HO data) bs /\ a = grp_start bs ga /\ e = grp_end (blen HO data) bs ga /\ path_true_fsm HO data bs ob ga.
+Proof. exact fsm_outboard_reported_is_true. Qed.
+Print Assumptions C06_fsm_outboard_reported_is_true.
+
+Theorem C06_fsm_outboard_valid_is_reported :
+  forall HO : hops,
+    hash_ok HO ->
+    forall (data : bytes HO) (bs : N) (ob : outboard HO),
+    blen HO data <= 2 ^ 63 ->
+    bs <= 10 ->
+    ob_root ob = root_hash HO data ->
+    ob_tree ob = mkTree (blen HO data) (bs) ->
+    forall q : ranges,
+    wf_ranges q = true ->
+    loads_ok_fsm HO ob (blen HO data) bs ->
+    forall ga : N,
+    2 <= sp_blocks (blen HO data) bs ->
+    ga < sp_blocks (blen HO data) bs ->
+    touched q (blen HO data) bs ga ->
+    path_true_fsm HO data bs ob ga -> In (grp_start bs ga, grp_end (blen HO data) bs ga) (fst (valid_outboard_ranges_fsm HO ob q)).
+Proof. exact fsm_outboard_valid_is_reported. Qed.
+Print Assumptions C06_fsm_outboard_valid_is_reported.
+
+Theorem C06_fsm_outboard_intact_complete :
+  forall HO : hops,
+    hash_ok HO ->
+    forall (data : bytes HO) (bs : N) (ob : outboard HO),
+    blen HO data <= 2 ^ 63 ->
+    bs <= 10 ->
+    ob_root ob = root_hash HO data ->
+    ob_tree ob = mkTree (blen HO data) (bs) ->
+    forall q : ranges,
+    wf_ranges q = true ->
+    loads_ok_fsm HO ob (blen HO data) bs ->
+    2 <= sp_blocks (blen HO data) bs ->
+    (forall ga : N, ga < sp_blocks (blen HO data) bs -> path_true_fsm HO data bs ob ga) ->
+    valid_outboard_ranges_fsm HO ob q =
+    (flat_map (fun ga : N => if touchedb q (blen HO data) bs ga then [(grp_start bs ga, grp_end (blen HO data) bs ga)] else [])
+       (chunk_range_list 0 (sp_blocks (blen HO data) bs)), Ok tt).
+Proof. exact fsm_outboard_intact_complete. Qed.
+Print Assumptions C06_fsm_outboard_intact_complete.
+
+(* ---- A.5 how A is proved: [fsm_view HO ob] is the store as the fsm loader sees it (an io-backed outboard: the
+   complete 64-byte slots of its byte vector followed by zero bytes up to (blocks - 1) * 64; other kinds: ob itself).
+   The fsm validators on ob are the sync validators on the view, for every store, data file and query ---- *)
+Theorem C06_fsm_view_def :
+  forall (HO : hops) (ob : outboard HO),
+  fsm_view HO ob =
+  if is_io (ob_k ob)
+  then mkOb (ob_k ob) (ob_root ob) (ob_tree ob)
+            (take HO ((blocks (ob_tree ob) - 1) * 64)
+               (take HO (blen HO (ob_data ob) / 64 * 64) (ob_data ob) ++ zeros HO (N.to_nat ((blocks (ob_tree ob) - 1) * 64))))
+  else ob.
+Proof. reflexivity. Qed.
+Print Assumptions C06_fsm_view_def.
+
+Theorem C06_fsm_view_stored_pair :
+  forall (HO : hops) (size bs : N),
+    size <= 2 ^ 63 ->
+    bs <= 10 ->
+    forall (ob : outboard HO) (nd : N),
+    ob_tree ob = mkTree (size) (bs) -> In nd (sp_pre_nodes size bs) -> stored_pair HO (fsm_view HO ob) nd = stored_pair_fsm HO ob nd.
+Proof. exact view_stored_pair. Qed.
+Print Assumptions C06_fsm_view_stored_pair.
+
+Theorem C06_fsm_view_data :
+  forall (HO : hops) (size bs : N),
+    size <= 2 ^ 63 ->
+    bs <= 10 ->
+    forall ob : outboard HO,
+    ob_tree ob = mkTree (size) (bs) -> forall (d : bytes HO) (q : ranges), valid_ranges_fsm HO ob d q = valid_ranges HO (fsm_view HO ob) d q.
+Proof. exact valid_ranges_fsm_view. Qed.
+Print Assumptions C06_fsm_view_data.
+
+Theorem C06_fsm_view_outboard :
+  forall (HO : hops) (size bs : N),
+    size <= 2 ^ 63 ->
+    bs <= 10 ->
+    forall ob : outboard HO,
+    ob_tree ob = mkTree (size) (bs) -> forall q : ranges, valid_outboard_ranges_fsm HO ob q = valid_outboard_ranges HO (fsm_view HO ob) q.
+Proof. exact valid_outboard_ranges_fsm_view. Qed.
+Print Assumptions C06_fsm_view_outboard.
+
+(* non-vacuity: a truncated io-backed outboard (5 groups, 3 of 4 slots complete): load_sync fails inside the tree
+   (so loads_ok and every "load_fsm = load_sync" premise fail), the sync validators stop with UnexpectedEof, loads_ok_fsm
+   holds and the fsm validators report one group more *)
+Theorem C06_fsm_nonvacuous :
+  exists (HO : hops) (data : bytes HO) (bs : N) (ob : outboard HO) (q : ranges),
+      hash_ok HO /\
+      blen HO data <= 2 ^ 63 /\
+      bs <= 10 /\
+      ob_root ob = root_hash HO data /\
+      wf_ranges q = true /\
+      ob_tree ob = mkTree (blen HO data) (bs) /\
+      ob_k ob = PreIO /\
+      2 <= sp_blocks (blen HO data) bs /\
+      blen HO (ob_data ob) < (sp_blocks (blen HO data) bs - 1) * 64 /\
+      (exists nd : N, In nd (sp_pre_nodes (blen HO data) bs) /\ load_sync HO ob nd = Err KUnexpectedEof /\ load_fsm HO ob nd = Ok (Some (zero_pair HO))) /\
+      ~ loads_ok HO ob (blen HO data) bs /\
+      loads_ok_fsm HO ob (blen HO data) bs /\
+      valid_ranges HO ob data q = ([(0, 1); (1, 2)], Err KUnexpectedEof) /\
+      valid_ranges_fsm HO ob data q = ([(0, 1); (1, 2); (4, 5)], Ok tt) /\
+      valid_outboard_ranges HO ob q = ([(0, 1); (1, 2)], Err KUnexpectedEof) /\
+      valid_outboard_ranges_fsm HO ob q = ([(0, 1); (1, 2); (4, 5)], Ok tt) /\
+      In (4, 5) (fst (valid_ranges_fsm HO ob data q)) /\
+      touched q (blen HO data) bs 4 /\
+      path_true_fsm HO data bs ob 4 /\
+      chain_ok_fsm HO ob (blen HO data) bs 4 /\ leaf_ok_fsm HO data ob (blen HO data) bs 4 /\ ~ chain_ok_fsm HO ob (blen HO data) bs 2.
+Proof. exact gapA_fsm_nonvacuous. Qed.
+Print Assumptions C06_fsm_nonvacuous.
+
+Theorem C06_fsm_intact_nonvacuous :
+  exists (HO : hops) (data : bytes HO) (bs : N) (ob : outboard HO) (q : ranges),
+      hash_ok HO /\
+      blen HO data <= 2 ^ 63 /\
+      bs <= 10 /\
+      ob_root ob = root_hash HO data /\
+      wf_ranges q = true /\
+      ob_tree ob = mkTree (blen HO data) (bs) /\
+      loads_ok_fsm HO ob (blen HO data) bs /\
+      2 <= sp_blocks (blen HO data) bs /\
+      (forall ga : N, ga < sp_blocks (blen HO data) bs -> path_true_fsm HO data bs ob ga) /\ valid_ranges_fsm HO ob data q = ([(3, 4)], Ok tt).
+Proof. exact gapA_fsm_intact_nonvacuous. Qed.
+Print Assumptions C06_fsm_intact_nonvacuous.
+
+Theorem C06_fsm_single_nonvacuous :
+  exists (HO : hops) (size bs : N) (q : ranges) (ob : outboard HO) (d : bytes HO),
+      ob_tree ob = mkTree (size) (bs) /\
+      blen HO d = size /\ sp_blocks size bs = 1 /\ ob_k ob = PreIO /\ valid_ranges_fsm HO ob d q = ([(0, 1)], Ok tt).
+Proof. exact gapA_fsm_single_nonvacuous. Qed.
+Print Assumptions C06_fsm_single_nonvacuous.
+
+(* ---- B.0 definitions ---- *)
+(* end byte of chunk group ga *)
+Theorem C06_grp_bend_def :
+  forall size bs ga : N, grp_bend size bs ga = N.min ((ga + 1) * 2 ^ bs * 1024) size.
+Proof. reflexivity. Qed.
+Print Assumptions C06_grp_bend_def.
+
+(* x then y: an error in x stops *)
+Theorem C06_vseq_def :
+  forall (xs ys : list (N * N)) (u : unit) (k : io_kind) (r : res io_kind unit),
+  vseq (xs, Ok u) (ys, r) = (xs ++ ys, r) /\ vseq (xs, Err k) (ys, r) = (xs, Err k) /\ vseq (xs, Panic) (ys, r) = (xs, Panic).
+Proof. intros; repeat split; reflexivity. Qed.
+Print Assumptions C06_vseq_def.
+
+(* what a group reports, with the read check *)
+Theorem C06_leaf_rep_e_def :
+  forall (HO : hops) (wd : bool) (d : bytes HO) (size bs ga : N) (owed : hash HO) (is_root : bool),
+  leaf_rep_e HO wd d size bs ga owed is_root =
+  if wd && negb (grp_bend size bs ga <=? blen HO d) then ([], Err KUnexpectedEof)
+  else (leaf_rep HO wd (take HO size d) size bs ga owed is_root, Ok tt).
+Proof. reflexivity. Qed.
+Print Assumptions C06_leaf_rep_e_def.
+
+(* the recursive specification with the read check: one step *)
+Theorem C06_val_spec_e_step :
+  forall (HO : hops) (f : nat) (wd : bool) (ob : outboard HO) (d : bytes HO) (size bs : N) (Sel : N -> bool) (ga n : N) (owed : hash HO) (is_root : bool),
+    val_spec_e HO (S f) wd ob d size bs Sel ga n owed is_root =
+    (if negb (touchedn Sel size bs ga n)
+     then vnil
+     else
+      if n <=? 1
+      then leaf_rep_e HO wd d size bs ga owed is_root
+      else
+       match stored_pair HO ob (unshift bs (sid ga n)) with
+       | Some (l, r) =>
+           if negb (bytes_eqb HO (parent_cv HO l r is_root) owed)
+           then vnil
+           else
+            if n <=? 2
+            then
+             vseq (if touchedn Sel size bs ga 1 then leaf_rep_e HO wd d size bs ga l false else vnil)
+               (if touchedn Sel size bs (ga + 1) 1 then leaf_rep_e HO wd d size bs (ga + 1) r false else vnil)
+            else
+             let half := capof n / 2 in
+             vseq (val_spec_e HO f wd ob d size bs Sel ga half l false) (val_spec_e HO f wd ob d size bs Sel (ga + half) (n - half) r false)
+       | None => vnil
+       end).
+Proof. exact val_spec_e_eq. Qed.
+Print Assumptions C06_val_spec_e_step.
+
+Theorem C06_val_top_e_def :
+  forall (HO : hops) (wd : bool) (ob : outboard HO) (d : bytes HO) (size bs : N) (q : ranges),
+  val_top_e HO wd ob d size bs q =
+  val_spec_e HO VFUEL wd ob d size bs (sel q size) 0 (sp_blocks size bs) (ob_root ob) true.
+Proof. exact val_top_e_eq. Qed.
+Print Assumptions C06_val_top_e_def.
+
+(* group ga stops the validator *)
+Theorem C06_grp_eof_def :
+  forall (HO : hops) (ob : outboard HO) (d : bytes HO) (size bs : N) (q : ranges) (ga : N),
+  grp_eof HO ob d size bs q ga =
+  touchedb q size bs ga && grp_verdict HO false ob [] size bs ga && negb (grp_bend size bs ga <=? blen HO d).
+Proof. reflexivity. Qed.
+Print Assumptions C06_grp_eof_def.
+
+(* what group ga reports when it can be read (the item of C06_data_exact on the first size bytes of d) *)
+Theorem C06_grp_rep_def :
+  forall (HO : hops) (ob : outboard HO) (d : bytes HO) (size bs : N) (q : ranges) (ga : N),
+  grp_rep HO ob d size bs q ga =
+  if touchedb q size bs ga && grp_verdict HO true ob (take HO size d) size bs ga
+  then [(grp_start bs ga, grp_end size bs ga)] else [].
+Proof. reflexivity. Qed.
+Print Assumptions C06_grp_rep_def.
+
+(* ---- B.1 exact output for a data file of any length ---- *)
+Theorem C06_short_data_spec :
+  forall (HO : hops) (size bs : N) (q : ranges) (ob : outboard HO),
+    size <= 2 ^ 63 ->
+    bs <= 10 ->
+    wf_ranges q = true ->
+    ob_tree ob = mkTree (size) (bs) ->
+    loads_ok HO ob size bs -> forall d : bytes HO, 2 <= sp_blocks size bs -> valid_ranges HO ob d q = val_top_e HO true ob d size bs q.
+Proof. exact short_data_spec. Qed.
+Print Assumptions C06_short_data_spec.
+
+(* the groups before the first stopping group (find: first group, in increasing order, with grp_eof) *)
+Theorem C06_short_data_exact :
+  forall (HO : hops) (size bs : N) (q : ranges) (ob : outboard HO),
+    size <= 2 ^ 63 ->
+    bs <= 10 ->
+    wf_ranges q = true ->
+    ob_tree ob = mkTree (size) (bs) ->
+    loads_ok HO ob size bs ->
+    forall d : bytes HO,
+    2 <= sp_blocks size bs ->
+    valid_ranges HO ob d q =
+    match find (grp_eof HO ob d size bs q) (chunk_range_list 0 (sp_blocks size bs)) with
+    | Some ga => (flat_map (grp_rep HO ob d size bs q) (chunk_range_list 0 ga), Err KUnexpectedEof)
+    | None => (flat_map (grp_rep HO ob d size bs q) (chunk_range_list 0 (sp_blocks size bs)), Ok tt)
+    end.
+Proof. exact short_data_find. Qed.
+Print Assumptions C06_short_data_exact.
+
+(* a file not longer than the blob (a partially written data file): the items of C06_data_exact on d itself *)
+Theorem C06_short_data_exact_le :
+  forall (HO : hops) (size bs : N) (q : ranges) (ob : outboard HO),
+    size <= 2 ^ 63 ->
+    bs <= 10 ->
+    wf_ranges q = true ->
+    ob_tree ob = mkTree (size) (bs) ->
+    loads_ok HO ob size bs ->
+    forall d : bytes HO,
+    blen HO d <= size ->
+    2 <= sp_blocks size bs ->
+    valid_ranges HO ob d q =
+    match find (grp_eof HO ob d size bs q) (chunk_range_list 0 (sp_blocks size bs)) with
+    | Some ga =>
+        (flat_map (fun ga0 : N => if touchedb q size bs ga0 && grp_verdict HO true ob d size bs ga0 then [(grp_start bs ga0, grp_end size bs ga0)] else [])
+           (chunk_range_list 0 ga), Err KUnexpectedEof)
+    | None =>
+        (flat_map (fun ga : N => if touchedb q size bs ga && grp_verdict HO true ob d size bs ga then [(grp_start bs ga, grp_end size bs ga)] else [])
+           (chunk_range_list 0 (sp_blocks size bs)), Ok tt)
+    end.
+Proof. exact short_data_find_le. Qed.
+Print Assumptions C06_short_data_exact_le.
+
+Theorem C06_short_eof :
+  forall (HO : hops) (size bs : N) (q : ranges) (ob : outboard HO) (d : bytes HO) (ga : N),
+    2 <= sp_blocks size bs -> grp_eof HO ob d size bs q ga = true <-> touched q size bs ga /\ chain_ok HO ob size bs ga /\ blen HO d < grp_bend size bs ga.
+Proof. exact grp_eof_iff. Qed.
+Print Assumptions C06_short_eof.
+
+Theorem C06_short_data_ok :
+  forall (HO : hops) (size bs : N) (q : ranges) (ob : outboard HO),
+    size <= 2 ^ 63 ->
+    bs <= 10 ->
+    wf_ranges q = true ->
+    ob_tree ob = mkTree (size) (bs) ->
+    loads_ok HO ob size bs ->
+    forall d : bytes HO,
+    2 <= sp_blocks size bs ->
+    (forall ga : N, ga < sp_blocks size bs -> grp_eof HO ob d size bs q ga = false) ->
+    valid_ranges HO ob d q = (flat_map (grp_rep HO ob d size bs q) (chunk_range_list 0 (sp_blocks size bs)), Ok tt).
+Proof. exact short_data_ok. Qed.
+Print Assumptions C06_short_data_ok.
+
+Theorem C06_short_data_err :
+  forall (HO : hops) (size bs : N) (q : ranges) (ob : outboard HO),
+    size <= 2 ^ 63 ->
+    bs <= 10 ->
+    wf_ranges q = true ->
+    ob_tree ob = mkTree (size) (bs) ->
+    loads_ok HO ob size bs ->
+    forall (d : bytes HO) (ga : N),
+    2 <= sp_blocks size bs ->
+    ga < sp_blocks size bs ->
+    grp_eof HO ob d size bs q ga = true ->
+    (forall ga' : N, ga' < ga -> grp_eof HO ob d size bs q ga' = false) ->
+    valid_ranges HO ob d q = (flat_map (grp_rep HO ob d size bs q) (chunk_range_list 0 ga), Err KUnexpectedEof).
+Proof. exact short_data_err. Qed.
+Print Assumptions C06_short_data_err.
+
+(* the whole blob is in the file: nothing stops; only the first size bytes are looked at *)
+Theorem C06_short_data_full :
+  forall (HO : hops) (size bs : N) (q : ranges) (ob : outboard HO),
+    size <= 2 ^ 63 ->
+    bs <= 10 ->
+    wf_ranges q = true ->
+    ob_tree ob = mkTree (size) (bs) ->
+    loads_ok HO ob size bs ->
+    forall d : bytes HO,
+    2 <= sp_blocks size bs ->
+    size <= blen HO d ->
+    valid_ranges HO ob d q =
+    (flat_map
+       (fun ga : N => if touchedb q size bs ga && grp_verdict HO true ob (take HO size d) size bs ga then [(grp_start bs ga, grp_end size bs ga)] else [])
+       (chunk_range_list 0 (sp_blocks size bs)), Ok tt).
+Proof. exact short_data_full. Qed.
+Print Assumptions C06_short_data_full.
+
+Theorem C06_long_data :
+  forall (HO : hops) (size bs : N) (q : ranges) (ob : outboard HO),
+    size <= 2 ^ 63 ->
+    bs <= 10 ->
+    wf_ranges q = true ->
+    ob_tree ob = mkTree (size) (bs) ->
+    loads_ok HO ob size bs -> forall d : bytes HO, size <= blen HO d -> valid_ranges HO ob d q = valid_ranges HO ob (take HO size d) q.
+Proof. exact long_data. Qed.
+Print Assumptions C06_long_data.
+
+(* membership: touched, chain verifies, bytes inside the file, leaf verifies *)
+Theorem C06_short_data_member :
+  forall (HO : hops) (size bs : N) (q : ranges) (ob : outboard HO),
+    size <= 2 ^ 63 ->
+    bs <= 10 ->
+    wf_ranges q = true ->
+    ob_tree ob = mkTree (size) (bs) ->
+    loads_ok HO ob size bs ->
+    forall (d : bytes HO) (a e : N),
+    2 <= sp_blocks size bs ->
+    In (a, e) (fst (valid_ranges HO ob d q)) <->
+    (exists ga : N,
+       ga < sp_blocks size bs /\
+       a = grp_start bs ga /\
+       e = grp_end size bs ga /\
+       touched q size bs ga /\ chain_ok HO ob size bs ga /\ grp_bend size bs ga <= blen HO d /\ leaf_ok HO (take HO size d) ob size bs ga).
+Proof. exact short_data_member. Qed.
+Print Assumptions C06_short_data_member.
+
+(* ---- B.2 soundness and completeness for any data file ---- *)
+Theorem C06_short_reported_is_true :
+  forall HO : hops,
+    hash_ok HO ->
+    forall (data : bytes HO) (bs : N) (ob : outboard HO),
+    blen HO data <= 2 ^ 63 ->
+    bs <= 10 ->
+    ob_root ob = root_hash HO data ->
+    forall q : ranges,
+    wf_ranges q = true ->
+    ob_tree ob = mkTree (blen HO data) (bs) ->
+    loads_ok HO ob (blen HO data) bs ->
+    forall (d : bytes HO) (a e : N),
+    2 <= sp_blocks (blen HO data) bs ->
+    In (a, e) (fst (valid_ranges HO ob d q)) ->
+    chunk_bytes HO (take HO (blen HO data) d) a e = chunk_bytes HO data a e /\
+    (exists ga : N,
+       ga < sp_blocks (blen HO data) bs /\
+       a = grp_start bs ga /\ e = grp_end (blen HO data) bs ga /\ grp_bend (blen HO data) bs ga <= blen HO d /\ path_true HO data bs ob ga).
+Proof. exact short_reported_is_true. Qed.
+Print Assumptions C06_short_reported_is_true.
+
+Theorem C06_short_reported_is_true_le :
+  forall HO : hops,
+    hash_ok HO ->
+    forall (data : bytes HO) (bs : N) (ob : outboard HO),
+    blen HO data <= 2 ^ 63 ->
+    bs <= 10 ->
+    ob_root ob = root_hash HO data ->
+    forall q : ranges,
+    wf_ranges q = true ->
+    ob_tree ob = mkTree (blen HO data) (bs) ->
+    loads_ok HO ob (blen HO data) bs ->
+    forall (d : bytes HO) (a e : N),
+    blen HO d <= blen HO data ->
+    2 <= sp_blocks (blen HO data) bs ->
+    In (a, e) (fst (valid_ranges HO ob d q)) ->
+    chunk_bytes HO d a e = chunk_bytes HO data a e /\
+    (exists ga : N,
+       ga < sp_blocks (blen HO data) bs /\
+       a = grp_start bs ga /\ e = grp_end (blen HO data) bs ga /\ grp_bend (blen HO data) bs ga <= blen HO d /\ path_true HO data bs ob ga).
+Proof. exact short_reported_is_true_le. Qed.
+Print Assumptions C06_short_reported_is_true_le.
+
+Theorem C06_short_valid_is_reported :
+  forall HO : hops,
+    hash_ok HO ->
+    forall (data : bytes HO) (bs : N) (ob : outboard HO),
+    blen HO data <= 2 ^ 63 ->
+    bs <= 10 ->
+    ob_root ob = root_hash HO data ->
+    forall q : ranges,
+    wf_ranges q = true ->
+    ob_tree ob = mkTree (blen HO data) (bs) ->
+    loads_ok HO ob (blen HO data) bs ->
+    forall (d : bytes HO) (ga : N),
+    2 <= sp_blocks (blen HO data) bs ->
+    ga < sp_blocks (blen HO data) bs ->
+    touched q (blen HO data) bs ga ->
+    path_true HO data bs ob ga ->
+    grp_bend (blen HO data) bs ga <= blen HO d ->
+    chunk_bytes HO (take HO (blen HO data) d) (grp_start bs ga) (grp_end (blen HO data) bs ga) =
+    chunk_bytes HO data (grp_start bs ga) (grp_end (blen HO data) bs ga) ->
+    In (grp_start bs ga, grp_end (blen HO data) bs ga) (fst (valid_ranges HO ob d q)).
+Proof. exact short_valid_is_reported. Qed.
+Print Assumptions C06_short_valid_is_reported.
+
+(* ---- B.3 a single group ---- *)
+Theorem C06_short_data_single :
+  forall (HO : hops) (size bs : N) (q : ranges) (ob : outboard HO),
+    ob_tree ob = mkTree (size) (bs) ->
+    forall d : bytes HO,
+    sp_blocks size bs = 1 ->
+    valid_ranges HO ob d q =
+    (if size <=? blen HO d
+     then (if bytes_eqb HO (hash_subtree HO 0 (take HO size d) true) (ob_root ob) then [(0, chunks size)] else [], Ok tt)
+     else ([], Err KUnexpectedEof)).
+Proof. exact short_data_single. Qed.
+Print Assumptions C06_short_data_single.
+
+Theorem C06_short_data_single_lt :
+  forall (HO : hops) (size bs : N) (q : ranges) (ob : outboard HO),
+    ob_tree ob = mkTree (size) (bs) ->
+    forall d : bytes HO, sp_blocks size bs = 1 -> blen HO d < size -> valid_ranges HO ob d q = ([], Err KUnexpectedEof).
+Proof. exact short_data_single_lt. Qed.
+Print Assumptions C06_short_data_single_lt.
+
+Theorem C06_short_single_reported_is_true :
+  forall HO : hops,
+    hash_ok HO ->
+    forall (data : bytes HO) (bs : N) (ob : outboard HO),
+    blen HO data <= 2 ^ 63 ->
+    bs <= 10 ->
+    ob_root ob = root_hash HO data ->
+    forall q : ranges,
+    ob_tree ob = mkTree (blen HO data) (bs) ->
+    forall d : bytes HO,
+    sp_blocks (blen HO data) bs = 1 -> fst (valid_ranges HO ob d q) <> [] -> blen HO data <= blen HO d /\ take HO (blen HO data) d = data.
+Proof. exact short_single_reported_is_true. Qed.
+Print Assumptions C06_short_single_reported_is_true.
+
+(* ---- B.4 the fsm twins (on load_fsm; loads premise about load_fsm only) ---- *)
+Theorem C06_fsm_val_spec_e_step :
+  forall (HO : hops) (f : nat) (wd : bool) (ob : outboard HO) (d : bytes HO) (size bs : N) (Sel : N -> bool) (ga n : N) (owed : hash HO) (is_root : bool),
+    val_spec_e_fsm HO (S f) wd ob d size bs Sel ga n owed is_root =
+    (if negb (touchedn Sel size bs ga n)
+     then vnil
+     else
+      if n <=? 1
+      then leaf_rep_e HO wd d size bs ga owed is_root
+      else
+       match stored_pair_fsm HO ob (unshift bs (sid ga n)) with
+       | Some (l, r) =>
+           if negb (bytes_eqb HO (parent_cv HO l r is_root) owed)
+           then vnil
+           else
+            if n <=? 2
+            then
+             vseq (if touchedn Sel size bs ga 1 then leaf_rep_e HO wd d size bs ga l false else vnil)
+               (if touchedn Sel size bs (ga + 1) 1 then leaf_rep_e HO wd d size bs (ga + 1) r false else vnil)
+            else
+             let half := capof n / 2 in
+             vseq (val_spec_e_fsm HO f wd ob d size bs Sel ga half l false) (val_spec_e_fsm HO f wd ob d size bs Sel (ga + half) (n - half) r false)
+       | None => vnil
+       end).
+Proof. exact val_spec_e_fsm_eq. Qed.
+Print Assumptions C06_fsm_val_spec_e_step.
+
+Theorem C06_fsm_val_top_e_def :
+  forall (HO : hops) (wd : bool) (ob : outboard HO) (d : bytes HO) (size bs : N) (q : ranges),
+  val_top_e_fsm HO wd ob d size bs q =
+  val_spec_e_fsm HO VFUEL wd ob d size bs (sel q size) 0 (sp_blocks size bs) (ob_root ob) true.
+Proof. exact val_top_e_fsm_eq. Qed.
+Print Assumptions C06_fsm_val_top_e_def.
+
+Theorem C06_fsm_grp_eof_def :
+  forall (HO : hops) (ob : outboard HO) (d : bytes HO) (size bs : N) (q : ranges) (ga : N),
+  grp_eof_fsm HO ob d size bs q ga =
+  touchedb q size bs ga && grp_verdict_fsm HO false ob [] size bs ga && negb (grp_bend size bs ga <=? blen HO d).
+Proof. reflexivity. Qed.
+Print Assumptions C06_fsm_grp_eof_def.
+
+Theorem C06_fsm_grp_rep_def :
+  forall (HO : hops) (ob : outboard HO) (d : bytes HO) (size bs : N) (q : ranges) (ga : N),
+  grp_rep_fsm HO ob d size bs q ga =
+  if touchedb q size bs ga && grp_verdict_fsm HO true ob (take HO size d) size bs ga
+  then [(grp_start bs ga, grp_end size bs ga)] else [].
+Proof. reflexivity. Qed.
+Print Assumptions C06_fsm_grp_rep_def.
+
+Theorem C06_fsm_short_data_spec :
+  forall (HO : hops) (size bs : N) (q : ranges) (ob : outboard HO),
+    size <= 2 ^ 63 ->
+    bs <= 10 ->
+    wf_ranges q = true ->
+    ob_tree ob = mkTree (size) (bs) ->
+    loads_ok_fsm HO ob size bs -> forall d : bytes HO, 2 <= sp_blocks size bs -> valid_ranges_fsm HO ob d q = val_top_e_fsm HO true ob d size bs q.
+Proof. exact fsm_short_data_spec. Qed.
+Print Assumptions C06_fsm_short_data_spec.
+
+Theorem C06_fsm_short_data_exact :
+  forall (HO : hops) (size bs : N) (q : ranges) (ob : outboard HO),
+    size <= 2 ^ 63 ->
+    bs <= 10 ->
+    wf_ranges q = true ->
+    ob_tree ob = mkTree (size) (bs) ->
+    loads_ok_fsm HO ob size bs ->
+    forall d : bytes HO,
+    2 <= sp_blocks size bs ->
+    valid_ranges_fsm HO ob d q =
+    match find (grp_eof_fsm HO ob d size bs q) (chunk_range_list 0 (sp_blocks size bs)) with
+    | Some ga => (flat_map (grp_rep_fsm HO ob d size bs q) (chunk_range_list 0 ga), Err KUnexpectedEof)
+    | None => (flat_map (grp_rep_fsm HO ob d size bs q) (chunk_range_list 0 (sp_blocks size bs)), Ok tt)
+    end.
+Proof. exact fsm_short_data_find. Qed.
+Print Assumptions C06_fsm_short_data_exact.
+
+Theorem C06_fsm_short_data_exact_le :
+  forall (HO : hops) (size bs : N) (q : ranges) (ob : outboard HO),
+    size <= 2 ^ 63 ->
+    bs <= 10 ->
+    wf_ranges q = true ->
+    ob_tree ob = mkTree (size) (bs) ->
+    loads_ok_fsm HO ob size bs ->
+    forall d : bytes HO,
+    blen HO d <= size ->
+    2 <= sp_blocks size bs ->
+    valid_ranges_fsm HO ob d q =
+    match find (grp_eof_fsm HO ob d size bs q) (chunk_range_list 0 (sp_blocks size bs)) with
+    | Some ga =>
+        (flat_map
+           (fun ga0 : N => if touchedb q size bs ga0 && grp_verdict_fsm HO true ob d size bs ga0 then [(grp_start bs ga0, grp_end size bs ga0)] else [])
+           (chunk_range_list 0 ga), Err KUnexpectedEof)
+    | None =>
+        (flat_map (fun ga : N => if touchedb q size bs ga && grp_verdict_fsm HO true ob d size bs ga then [(grp_start bs ga, grp_end size bs ga)] else [])
+           (chunk_range_list 0 (sp_blocks size bs)), Ok tt)
+    end.
+Proof. exact fsm_short_data_find_le. Qed.
+Print Assumptions C06_fsm_short_data_exact_le.
+
+Theorem C06_fsm_short_eof :
+  forall (HO : hops) (size bs : N) (q : ranges) (ob : outboard HO),
+    size <= 2 ^ 63 ->
+    bs <= 10 ->
+    ob_tree ob = mkTree (size) (bs) ->
+    forall (d : bytes HO) (ga : N),
+    2 <= sp_blocks size bs ->
+    grp_eof_fsm HO ob d size bs q ga = true <-> touched q size bs ga /\ chain_ok_fsm HO ob size bs ga /\ blen HO d < grp_bend size bs ga.
+Proof. exact fsm_grp_eof_iff. Qed.
+Print Assumptions C06_fsm_short_eof.
+
+Theorem C06_fsm_short_data_ok :
+  forall (HO : hops) (size bs : N) (q : ranges) (ob : outboard HO),
+    size <= 2 ^ 63 ->
+    bs <= 10 ->
+    wf_ranges q = true ->
+    ob_tree ob = mkTree (size) (bs) ->
+    loads_ok_fsm HO ob size bs ->
+    forall d : bytes HO,
+    2 <= sp_blocks size bs ->
+    (forall ga : N, ga < sp_blocks size bs -> grp_eof_fsm HO ob d size bs q ga = false) ->
+    valid_ranges_fsm HO ob d q = (flat_map (grp_rep_fsm HO ob d size bs q) (chunk_range_list 0 (sp_blocks size bs)), Ok tt).
+Proof. exact fsm_short_data_ok. Qed.
+Print Assumptions C06_fsm_short_data_ok.
+
+Theorem C06_fsm_short_data_err :
+  forall (HO : hops) (size bs : N) (q : ranges) (ob : outboard HO),
+    size <= 2 ^ 63 ->
+    bs <= 10 ->
+    wf_ranges q = true ->
+    ob_tree ob = mkTree (size) (bs) ->
+    loads_ok_fsm HO ob size bs ->
+    forall (d : bytes HO) (ga : N),
+    2 <= sp_blocks size bs ->
+    ga < sp_blocks size bs ->
+    grp_eof_fsm HO ob d size bs q ga = true ->
+    (forall ga' : N, ga' < ga -> grp_eof_fsm HO ob d size bs q ga' = false) ->
+    valid_ranges_fsm HO ob d q = (flat_map (grp_rep_fsm HO ob d size bs q) (chunk_range_list 0 ga), Err KUnexpectedEof).
+Proof. exact fsm_short_data_err. Qed.
+Print Assumptions C06_fsm_short_data_err.
+
+Theorem C06_fsm_long_data :
+  forall (HO : hops) (size bs : N) (q : ranges) (ob : outboard HO),
+    size <= 2 ^ 63 ->
+    bs <= 10 ->
+    wf_ranges q = true ->
+    ob_tree ob = mkTree (size) (bs) ->
+    loads_ok_fsm HO ob size bs -> forall d : bytes HO, size <= blen HO d -> valid_ranges_fsm HO ob d q = valid_ranges_fsm HO ob (take HO size d) q.
+Proof. exact fsm_long_data. Qed.
+Print Assumptions C06_fsm_long_data.
+
+Theorem C06_fsm_short_data_member :
+  forall (HO : hops) (size bs : N) (q : ranges) (ob : outboard HO),
+    size <= 2 ^ 63 ->
+    bs <= 10 ->
+    wf_ranges q = true ->
+    ob_tree ob = mkTree (size) (bs) ->
+    loads_ok_fsm HO ob size bs ->
+    forall (d : bytes HO) (a e : N),
+    2 <= sp_blocks size bs ->
+    In (a, e) (fst (valid_ranges_fsm HO ob d q)) <->
+    (exists ga : N,
+       ga < sp_blocks size bs /\
+       a = grp_start bs ga /\
+       e = grp_end size bs ga /\
+       touched q size bs ga /\ chain_ok_fsm HO ob size bs ga /\ grp_bend size bs ga <= blen HO d /\ leaf_ok_fsm HO (take HO size d) ob size bs ga).
+Proof. exact fsm_short_data_member. Qed.
+Print Assumptions C06_fsm_short_data_member.
+
+Theorem C06_fsm_short_reported_is_true :
+  forall HO : hops,
+    hash_ok HO ->
+    forall (data : bytes HO) (bs : N) (ob : outboard HO),
+    blen HO data <= 2 ^ 63 ->
+    bs <= 10 ->
+    ob_root ob = root_hash HO data ->
+    ob_tree ob = mkTree (blen HO data) (bs) ->
+    forall q : ranges,
+    wf_ranges q = true ->
+    loads_ok_fsm HO ob (blen HO data) bs ->
+    forall (d : bytes HO) (a e : N),
+    2 <= sp_blocks (blen HO data) bs ->
+    In (a, e) (fst (valid_ranges_fsm HO ob d q)) ->
+    chunk_bytes HO (take HO (blen HO data) d) a e = chunk_bytes HO data a e /\
+    (exists ga : N,
+       ga < sp_blocks (blen HO data) bs /\
+       a = grp_start bs ga /\ e = grp_end (blen HO data) bs ga /\ grp_bend (blen HO data) bs ga <= blen HO d /\ path_true_fsm HO data bs ob ga).
+Proof. exact fsm_short_reported_is_true. Qed.
+Print Assumptions C06_fsm_short_reported_is_true.
+
+Theorem C06_fsm_short_reported_is_true_le :
+  forall HO : hops,
+    hash_ok HO ->
+    forall (data : bytes HO) (bs : N) (ob : outboard HO),
+    blen HO data <= 2 ^ 63 ->
+    bs <= 10 ->
+    ob_root ob = root_hash HO data ->
+    ob_tree ob = mkTree (blen HO data) (bs) ->
+    forall q : ranges,
+    wf_ranges q = true ->
+    loads_ok_fsm HO ob (blen HO data) bs ->
+    forall (d : bytes HO) (a e : N),
+    blen HO d <= blen HO data ->
+    2 <= sp_blocks (blen HO data) bs ->
+    In (a, e) (fst (valid_ranges_fsm HO ob d q)) ->
+    chunk_bytes HO d a e = chunk_bytes HO data a e /\
+    (exists ga : N,
+       ga < sp_blocks (blen HO data) bs /\
+       a = grp_start bs ga /\ e = grp_end (blen HO data) bs ga /\ grp_bend (blen HO data) bs ga <= blen HO d /\ path_true_fsm HO data bs ob ga).
+Proof. exact fsm_short_reported_is_true_le. Qed.
+Print Assumptions C06_fsm_short_reported_is_true_le.
+
+Theorem C06_fsm_short_valid_is_reported :
+  forall HO : hops,
+    hash_ok HO ->
+    forall (data : bytes HO) (bs : N) (ob : outboard HO),
+    blen HO data <= 2 ^ 63 ->
+    bs <= 10 ->
+    ob_root ob = root_hash HO data ->
+    ob_tree ob = mkTree (blen HO data) (bs) ->
+    forall q : ranges,
+    wf_ranges q = true ->
+    loads_ok_fsm HO ob (blen HO data) bs ->
+    forall (d : bytes HO) (ga : N),
+    2 <= sp_blocks (blen HO data) bs ->
+    ga < sp_blocks (blen HO data) bs ->
+    touched q (blen HO data) bs ga ->
+    path_true_fsm HO data bs ob ga ->
+    grp_bend (blen HO data) bs ga <= blen HO d ->
+    chunk_bytes HO (take HO (blen HO data) d) (grp_start bs ga) (grp_end (blen HO data) bs ga) =
+    chunk_bytes HO data (grp_start bs ga) (grp_end (blen HO data) bs ga) ->
+    In (grp_start bs ga, grp_end (blen HO data) bs ga) (fst (valid_ranges_fsm HO ob d q)).
+Proof. exact fsm_short_valid_is_reported. Qed.
+Print Assumptions C06_fsm_short_valid_is_reported.
+
+Theorem C06_fsm_short_data_single :
+  forall (HO : hops) (size bs : N) (q : ranges) (ob : outboard HO),
+    ob_tree ob = mkTree (size) (bs) ->
+    forall d : bytes HO,
+    sp_blocks size bs = 1 ->
+    valid_ranges_fsm HO ob d q =
+    (if size <=? blen HO d
+     then (if bytes_eqb HO (hash_subtree HO 0 (take HO size d) true) (ob_root ob) then [(0, chunks size)] else [], Ok tt)
+     else ([], Err KUnexpectedEof)).
+Proof. exact fsm_short_data_single. Qed.
+Print Assumptions C06_fsm_short_data_single.
+
+Theorem C06_fsm_short_data_single_lt :
+  forall (HO : hops) (size bs : N) (q : ranges) (ob : outboard HO),
+    ob_tree ob = mkTree (size) (bs) ->
+    forall d : bytes HO, sp_blocks size bs = 1 -> blen HO d < size -> valid_ranges_fsm HO ob d q = ([], Err KUnexpectedEof).
+Proof. exact fsm_short_data_single_lt. Qed.
+Print Assumptions C06_fsm_short_data_single_lt.
+
+Theorem C06_fsm_short_single_reported_is_true :
+  forall HO : hops,
+    hash_ok HO ->
+    forall (data : bytes HO) (bs : N) (ob : outboard HO),
+    blen HO data <= 2 ^ 63 ->
+    bs <= 10 ->
+    ob_root ob = root_hash HO data ->
+    ob_tree ob = mkTree (blen HO data) (bs) ->
+    forall (q : ranges) (d : bytes HO),
+    sp_blocks (blen HO data) bs = 1 -> fst (valid_ranges_fsm HO ob d q) <> [] -> blen HO data <= blen HO d /\ take HO (blen HO data) d = data.
+Proof. exact fsm_short_single_reported_is_true. Qed.
+Print Assumptions C06_fsm_short_single_reported_is_true.
+
+(* ---- B.5 non-vacuity, and one refuted clause ---- *)
+(* a data file of 4101 of 5120 bytes, intact outboard: four groups, then UnexpectedEof; no error when the query does
+   not touch the unreadable group *)
+Theorem C06_short_nonvacuous :
+  exists (HO : hops) (data : bytes HO) (bs : N) (ob : outboard HO) (q : ranges) (d : bytes HO),
+      hash_ok HO /\
+      blen HO data <= 2 ^ 63 /\
+      bs <= 10 /\
+      ob_root ob = root_hash HO data /\
+      wf_ranges q = true /\
+      ob_tree ob = mkTree (blen HO data) (bs) /\
+      loads_ok HO ob (blen HO data) bs /\
+      2 <= sp_blocks (blen HO data) bs /\
+      blen HO d < blen HO data /\
+      grp_eof HO ob d (blen HO data) bs q 4 = true /\
+      (forall ga' : N, ga' < 4 -> grp_eof HO ob d (blen HO data) bs q ga' = false) /\
+      valid_ranges HO ob d q = ([(0, 1); (1, 2); (2, 3); (3, 4)], Err KUnexpectedEof) /\
+      In (3, 4) (fst (valid_ranges HO ob d q)) /\
+      touched q (blen HO data) bs 3 /\
+      path_true HO data bs ob 3 /\
+      grp_bend (blen HO data) bs 3 <= blen HO d /\
+      chunk_bytes HO (take HO (blen HO data) d) (grp_start bs 3) (grp_end (blen HO data) bs 3) =
+      chunk_bytes HO data (grp_start bs 3) (grp_end (blen HO data) bs 3) /\ valid_ranges HO ob d [3; 4] = ([(3, 4)], Ok tt).
+Proof. exact gapB_short_nonvacuous. Qed.
+Print Assumptions C06_short_nonvacuous.
+
+(* truncated io-backed outboard and short data file *)
+Theorem C06_fsm_short_nonvacuous :
+  exists (HO : hops) (data : bytes HO) (bs : N) (ob : outboard HO) (q : ranges) (d : bytes HO),
+      hash_ok HO /\
+      blen HO data <= 2 ^ 63 /\
+      bs <= 10 /\
+      ob_root ob = root_hash HO data /\
+      wf_ranges q = true /\
+      ob_tree ob = mkTree (blen HO data) (bs) /\
+      loads_ok_fsm HO ob (blen HO data) bs /\
+      blen HO (ob_data ob) < (sp_blocks (blen HO data) bs - 1) * 64 /\
+      2 <= sp_blocks (blen HO data) bs /\
+      blen HO d < blen HO data /\
+      grp_eof_fsm HO ob d (blen HO data) bs q 4 = true /\
+      (forall ga' : N, ga' < 4 -> grp_eof_fsm HO ob d (blen HO data) bs q ga' = false) /\
+      valid_ranges_fsm HO ob d q = ([(0, 1); (1, 2)], Err KUnexpectedEof) /\
+      In (1, 2) (fst (valid_ranges_fsm HO ob d q)) /\
+      touched q (blen HO data) bs 1 /\
+      path_true_fsm HO data bs ob 1 /\
+      grp_bend (blen HO data) bs 1 <= blen HO d /\
+      chunk_bytes HO (take HO (blen HO data) d) (grp_start bs 1) (grp_end (blen HO data) bs 1) =
+      chunk_bytes HO data (grp_start bs 1) (grp_end (blen HO data) bs 1).
+Proof. exact gapB_short_fsm_nonvacuous. Qed.
+Print Assumptions C06_fsm_short_nonvacuous.
+
+Theorem C06_short_single_nonvacuous :
+  exists (HO : hops) (size bs : N) (q : ranges) (ob : outboard HO) (d : bytes HO),
+      ob_tree ob = mkTree (size) (bs) /\
+      sp_blocks size bs = 1 /\
+      blen HO d < size /\ valid_ranges HO ob d q = ([], Err KUnexpectedEof) /\ valid_ranges_fsm HO ob d q = ([], Err KUnexpectedEof).
+Proof. exact gapB_single_nonvacuous. Qed.
+Print Assumptions C06_short_single_nonvacuous.
+
+(* REFUTED clause: for a data file LONGER than the blob "chunk_bytes d a e = chunk_bytes data a e" fails for the last
+   group of a blob that does not end on a chunk boundary (chunk_bytes d takes surplus bytes the validator never reads);
+   what holds is C06_short_reported_is_true, on take size d.  Not a defect of the crate *)
+Theorem C06_reported_long_refuted :
+  exists (HO : hops) (data : bytes HO) (bs : N) (ob : outboard HO) (q : ranges) (d : bytes HO) (a e : N),
+      hash_ok HO /\
+      blen HO data <= 2 ^ 63 /\
+      bs <= 10 /\
+      ob_root ob = root_hash HO data /\
+      wf_ranges q = true /\
+      ob_tree ob = mkTree (blen HO data) (bs) /\
+      loads_ok HO ob (blen HO data) bs /\
+      loads_ok_fsm HO ob (blen HO data) bs /\
+      2 <= sp_blocks (blen HO data) bs /\
+      blen HO data < blen HO d /\
+      In (a, e) (fst (valid_ranges HO ob d q)) /\
+      In (a, e) (fst (valid_ranges_fsm HO ob d q)) /\
+      chunk_bytes HO d a e <> chunk_bytes HO data a e /\ chunk_bytes HO (take HO (blen HO data) d) a e = chunk_bytes HO data a e.
+Proof. exact short_reported_long_refuted. Qed.
+Print Assumptions C06_reported_long_refuted.
+
